@@ -99,6 +99,8 @@ def arg_derives(tree: Tree, fn: FuncInfo, rd: RD, arg: ast.AST, p: str, src: dic
                 if n.value.id in src["param_attr"] and n.attr == p:
                     return True
     if src["self_args_index"] is not None:
+        if isinstance(arg, ast.Subscript) and unparse(arg.value) == "self.args" and isinstance(arg.slice, ast.Constant) and arg.slice.value == src["self_args_index"]:
+            return True  # `self.args[i]` (also an element of `*rest` after `a, b, *rest = self.args`)
         for d in closure:
             if d.index == src["self_args_index"] and d.value is not None and unparse(d.value).endswith("self.args"):
                 return True
@@ -175,9 +177,51 @@ def _mapping_items(tree: Tree, fn: FuncInfo, rd: RD, node: ast.AST, depth: int =
     return None
 
 
-def _positional(rd: RD, args: list[ast.AST]) -> list[ast.AST] | None:
+def _rest_of_unpacking(rd: RD, name: ast.Name, n_self_args: int | None) -> list[ast.AST] | None:
+    """``a, b, *rest, z = SEQ``: the elements ``rest`` holds, as expressions - the elements of a tuple display, or
+    ``self.args[i]`` subscripts (sharing the ``self.args`` node of the assignment) when SEQ is ``self.args`` of an
+    expression class whose number of arguments is known.  None: not such a local."""
+    defs = rd.reaching(name)
+    if len(defs) != 1:
+        return None
+    d = next(iter(defs))
+    if d.kind != "assign" or d.index is None or d.value is None or not isinstance(d.node, ast.Assign) or len(d.node.targets) != 1:
+        return None
+    tgt = d.node.targets[0]
+    if not isinstance(tgt, (ast.Tuple, ast.List)) or d.index >= len(tgt.elts) or not isinstance(tgt.elts[d.index], ast.Starred) or sum(isinstance(e, ast.Starred) for e in tgt.elts) != 1:
+        return None
+    star = tgt.elts[d.index].value
+    if not (isinstance(star, ast.Name) and star.id == name.id):
+        return None
+    before, after = d.index, len(tgt.elts) - d.index - 1
+    if isinstance(d.value, (ast.Tuple, ast.List)) and not any(isinstance(e, ast.Starred) for e in d.value.elts):
+        return list(d.value.elts[before: len(d.value.elts) - after]) if len(d.value.elts) >= before + after else None
+    if unparse(d.value) == "self.args" and n_self_args is not None and n_self_args >= before + after:
+        return [ast.copy_location(ast.Subscript(value=d.value, slice=ast.Constant(value=i), ctx=ast.Load()), d.value) for i in range(before, n_self_args - after)]
+    return None
+
+
+def _slice_of(rd: RD, v: ast.AST, n_self_args: int | None) -> list[ast.AST] | None:
+    """``seq[a:b]`` with constant bounds of a sequence whose elements are known."""
+    if not (isinstance(v, ast.Subscript) and isinstance(v.slice, ast.Slice) and v.slice.step is None and isinstance(v.value, ast.Name)):
+        return None
+    bounds = []
+    for b in (v.slice.lower, v.slice.upper):
+        if b is None:
+            bounds.append(None)
+        elif isinstance(b, ast.Constant) and type(b.value) is int and b.value >= 0:
+            bounds.append(b.value)
+        else:
+            return None
+    base = _single_value(rd, v.value)
+    items = list(base.elts) if isinstance(base, (ast.Tuple, ast.List)) and not any(isinstance(e, ast.Starred) for e in base.elts) else _rest_of_unpacking(rd, v.value, n_self_args)
+    return None if items is None else items[bounds[0]: bounds[1]]
+
+
+def _positional(rd: RD, args: list[ast.AST], n_self_args: int | None = None) -> list[ast.AST] | None:
     """The positional arguments with ``*t`` expanded when ``t`` is a tuple / list display (or a local bound once to
-    one); None if a starred argument cannot be expanded."""
+    one), the starred rest of an unpacking of such a display / of ``self.args``, or a constant slice of one of those;
+    None if a starred argument cannot be expanded."""
     out: list[ast.AST] = []
     for a in args:
         if not isinstance(a, ast.Starred):
@@ -185,7 +229,15 @@ def _positional(rd: RD, args: list[ast.AST]) -> list[ast.AST] | None:
             continue
         v = a.value
         if isinstance(v, ast.Name):
+            rest = _rest_of_unpacking(rd, v, n_self_args)
+            if rest is not None:
+                out.extend(rest)
+                continue
             v = _single_value(rd, v) or v
+        sliced = _slice_of(rd, v, n_self_args)
+        if sliced is not None:
+            out.extend(sliced)
+            continue
         if not isinstance(v, (ast.Tuple, ast.List)) or any(isinstance(e, ast.Starred) for e in v.elts):
             return None
         out.extend(v.elts)
@@ -196,7 +248,8 @@ class _Supplied:
     """What one call site hands to the callee: positional arguments, keywords, and whether everything is known."""
 
     def __init__(self, tree: Tree, fn: FuncInfo, rd: RD, call: ast.Call, skip_first: int = 0) -> None:
-        self.pos = _positional(rd, call.args[skip_first:])
+        ec = expression_classes(tree).get(fn.cls.qual) if fn.cls is not None else None
+        self.pos = _positional(rd, call.args[skip_first:], len(ec.sympy_fields) if ec is not None else None)
         self.kw: dict[str, ast.AST] = {}
         self.open: list[str] = [] if self.pos is not None else ["a *argument that is not a tuple display"]
         for k in call.keywords:
